@@ -290,7 +290,20 @@ func (c *FailoverController) ForceFailover(reason string) error {
 	c.logger.Warn("Forcing failover",
 		zap.String("reason", reason),
 	)
-	return c.initiateFailover(reason)
+	run, err := c.initiateFailover(reason)
+	if err != nil {
+		return err
+	}
+	if run {
+		// initiateFailover only marks the transition as in progress; nothing else
+		// would ever complete it, so perform it now.
+		c.wg.Add(1)
+		go func() {
+			defer c.wg.Done()
+			c.executeFailover(reason)
+		}()
+	}
+	return nil
 }
 
 // ForceFailback forces an immediate failback (for manual intervention).
@@ -400,13 +413,26 @@ func (c *FailoverController) evaluateState() {
 	}
 }
 
-// initiateFailover starts the failover process.
-func (c *FailoverController) initiateFailover(reason string) error {
+// initiateFailover starts the failover process. It reports whether the caller
+// has to run executeFailover itself (false if an already-fired automatic
+// failover timer is about to do so).
+func (c *FailoverController) initiateFailover(reason string) (bool, error) {
 	c.mu.Lock()
 	defer c.mu.Unlock()
 
 	if c.currentRole == RoleActive {
-		return fmt.Errorf("already active, cannot failover")
+		return false, fmt.Errorf("already active, cannot failover")
+	}
+	if c.state == FailoverStateInProgress {
+		return false, fmt.Errorf("failover already in progress")
+	}
+
+	// A forced failover supersedes a pending automatic one. If the timer can no
+	// longer be stopped it has fired and is waiting for the lock: let it run
+	// the transition instead of starting a second one.
+	run := true
+	if c.state == FailoverStatePending && c.failoverTimer != nil && !c.failoverTimer.Stop() {
+		run = false
 	}
 
 	c.state = FailoverStateInProgress
@@ -421,7 +447,7 @@ func (c *FailoverController) initiateFailover(reason string) error {
 		PartnerState: "unhealthy",
 	})
 
-	return nil
+	return run, nil
 }
 
 // executeFailover performs the actual failover.
